@@ -125,7 +125,7 @@ example : let g := Px.prun (fun j => j == 1) 0 [[.be 0, .err, .be 1]] (Px.PG.ini
 
 /-! Non-vacuity / regression examples with the policy of the code (`realPolicy`).
     `cfg1`: one sub-cluster `a` with two live backends (ids 0 and 1), WRR; `cfgLC`: the same with WLC. -/
-def cfg1 : Cfg := ⟨2, 0, 0, 0, 0, 0, [⟨"a", 1, false, [⟨true, 1⟩, ⟨true, 1⟩]⟩]⟩
+def cfg1 : Cfg := ⟨2, 0, 0, 0, 0, 0, [⟨"a", 1, false, [⟨true, 1⟩, ⟨true, 1⟩]⟩], 0⟩
 def cfgLC : Cfg := { cfg1 with mode := 1 }
 
 /-- the former witness: a Finish verdict on the first attempt; the counter stays 0 (was -1) -/
